@@ -115,11 +115,9 @@ impl Monitor for C02 {
                 out.violation(P, "undelegation_leaves_books", format!("delegated fell by {} but undelegate messages sum to {}", matched, und));
             }
         }
-        // hub liquid balance untouched by everything except withdrawals
-        let keeps_balance = matches!(
-            c.op,
-            Op::Bond { .. } | Op::BondStSei { .. } | Op::Convert { .. } | Op::UpdateGlobalIndex { .. } | Op::CheckSlashing { .. } | Op::Unbond { .. } | Op::RemoveValidator { .. } | Op::BurnFrom { .. }
-        );
+        // "Bonding, reward re-bonding, conversion and index updates leave the hub's liquid coin balance unchanged" (a
+        // validator removal runs an index update; the other kinds - unbond, slashing checks, burns - are not listed)
+        let keeps_balance = matches!(c.op, Op::Bond { .. } | Op::BondStSei { .. } | Op::Convert { .. } | Op::UpdateGlobalIndex { .. } | Op::RemoveValidator { .. });
         if keeps_balance {
             if c.pre.hub_bank != c.post.hub_bank {
                 out.violation(P, "hub_balance_untouched", format!("{} changed the hub's liquid balance {} -> {}", c.op.kind(), c.pre.hub_bank, c.post.hub_bank));
